@@ -255,7 +255,7 @@ def to_ouv(o) -> str:
 # running Coq on cases (several verdict functions per file)
 # ---------------------------------------------------------------------------
 
-def coq_verdicts(name: str, cases: list[str], case_type: str, funs: list[str], shard=400, jobs=4, timeout=600, imports="UnionModel UnionCases", gen_imports="", needs=()):
+def coq_verdicts(name: str, cases: list[str], case_type: str, funs: list[str], shard=400, jobs=4, timeout=2400, imports="UnionModel UnionCases", gen_imports="", needs=()):
     """For each function f in funs: indices i with f (case i) = false. None + log when Coq failed."""
     br = vlib.coq_make(["theories/Wire.vo", "theories/PyK.vo", "theories/UnionCases.vo", "theories/UnionDeep.vo"] + list(needs), jobs=4)
     if not br.ok:
@@ -947,10 +947,25 @@ def shapes_part(ctx: vlib.Ctx, mod, mem: Members):
         ctx.hist("shape_kind", shape + ("/enc" if encode else "/dec"))
         ctx.hist("shape_slot_paths", "+".join(i[2] for i in infos) + ("/permuted" if (nh == 2 and sorted(h0) == sorted(h1) and h0 != h1) else ""))
         mixin = site.entry in ("field", "optfield", "dataclass")
-        for rep_i in range(ctx.budget(3, 4)):
+        # two positions with the same members in another order: feed both the inputs on which the property's
+        # reference distinguishes the two orders (found by search over the input pool, per member set)
+        sens = []
+        if not encode and infos[0][2] == "union" and infos[1][2] == "union" and infos[0][1] != infos[1][1] \
+                and sorted(map(repr, infos[0][1])) == sorted(map(repr, infos[1][1])):
+            for dx in DECODE_INPUTS:
+                d = eval(dx, mod.__dict__)
+                acc = lambda m, d=d: mem.accept(m, d)
+                if not same(ref_union_decode(infos[0][1], d, acc), ref_union_decode(infos[1][1], d, acc)):
+                    sens.append(dx)
+            sens = rng.sample(sens, min(len(sens), ctx.budget(4, 6)))
+            ctx.hist("shape_order_sensitive_inputs", str(len(sens)))
+        for rep_i in range(ctx.budget(3, 4) + len(sens)):
             if not encode:
-                a = rng.choice(ORDER_SENSITIVE if rng.random() < 0.6 else DECODE_INPUTS)
-                b = a if rng.random() < 0.5 else rng.choice(ORDER_SENSITIVE if rng.random() < 0.6 else DECODE_INPUTS)
+                if rep_i >= ctx.budget(3, 4):
+                    a = b = sens[rep_i - ctx.budget(3, 4)]
+                else:
+                    a = rng.choice(ORDER_SENSITIVE if rng.random() < 0.6 else DECODE_INPUTS)
+                    b = a if rng.random() < 0.5 else rng.choice(ORDER_SENSITIVE if rng.random() < 0.6 else DECODE_INPUTS)
                 inx = site.fmt(site.in_tpl, a, b)
                 whole = outcome(site.decode, eval(inx, mod.__dict__))
                 exps, ds = [], []
@@ -1587,9 +1602,32 @@ def coq_pty(tp, subs, mem: Members) -> str:
     return f"(QLeaf {coq_str(cname)} {'true' if t2 in SCALARS else 'false'} (tb [{rows}]))"
 
 
+def coq_rty(tp, subs, mem: Members) -> str:
+    """coq_pty with the typing membership of every leaf (UnionMember.rty)"""
+    k, a = deep_kind(tp)
+    if k == "opt":
+        return f"(ROpt {coq_rty(a, subs, mem)})"
+    if k == "union":
+        return "(RU [" + "; ".join(f"({i + 1}%nat, {coq_rty(m, subs, mem)})" for i, m in enumerate(a)) + "])"
+    if structural(tp):
+        if k == "list":
+            return f"(RList {coq_rty(a, subs, mem)})"
+        if k == "tupv":
+            return f"(RTupV {coq_rty(a, subs, mem)})"
+        if k == "tupf":
+            return "(RTupF [" + "; ".join(coq_rty(t, subs, mem) for t in a) + "])"
+        return f"(RDict {coq_rty(a, subs, mem)})"
+    t2 = NoneType if tp is None else tp
+    cname = "NoneType" if t2 is NoneType else getattr(typing.get_origin(t2) or t2, "__name__", "x")
+    rows = "; ".join(f"({to_uv(x)}, {to_ouv(mem.encode(t2, x, False))})" for x in subs)
+    crows = "; ".join(f"({to_uv(x)}, {'true' if conforms(t2, x) else 'false'})" for x in subs)
+    return f"(RLeaf {coq_str(cname)} {'true' if t2 in SCALARS else 'false'} (tb [{rows}]) (tbb [{crows}]))"
+
+
 def deep_enc_part(ctx: vlib.Ctx, mod, mem: Members):
     rng = ctx.rng
     qcases, qinfo = [], []
+    rcases, rinfo, pool = [], [], []
     curated = ["List[Union[int, date]]", "Dict[str, Optional[Union[int, date]]]", "Tuple[Union[date, str], ...]",
                "Union[List[Union[int, date]], str]", "Dict[str, Union[List[int], List[date]]]", "List[Union[Decimal, int]]",
                "Tuple[Optional[date], Union[str, UUID, None]]", "Union[Dict[str, Union[date, int]], List[Optional[date]], str]",
@@ -1620,6 +1658,19 @@ def deep_enc_part(ctx: vlib.Ctx, mod, mem: Members):
                 v = eval(vx, mod.__dict__)
             except Exception:
                 continue
+            # membership (UnionMember.rconf) against conforms() on a value made for ANOTHER type as well
+            if pool and rng.random() < 0.5:
+                ox, ov = rng.choice(pool)
+                osubs = subvalues(ov)
+                if ascii_only_str(osubs) and len(rcases) < ctx.budget(900, 2500):
+                    oc = conforms(tp, ov)
+                    oexp = outcome(ref_enc_deep, tp, ov, mem) if oc else ("raise", "", False)
+                    oobs = outcome(site.encode, ov) if oc else ("raise", "", False)
+                    rcases.append(f"RCA {coq_rty(tp, osubs, mem)} {to_uv(ov)} {'true' if oc else 'false'} {to_ouv(oobs)} {to_ouv(oexp)}")
+                    rinfo.append((expr, ox, "foreign value", f"conforms={conforms(tp, ov)}"))
+                    ctx.hist("member_value", "foreign/" + ("member" if conforms(tp, ov) else "not-a-member"))
+            if len(pool) < 400:
+                pool.append((vx, v))
             if not conforms(tp, v):
                 continue
             expected = outcome(ref_enc_deep, tp, v, mem)
@@ -1651,8 +1702,19 @@ def deep_enc_part(ctx: vlib.Ctx, mod, mem: Members):
                 continue
             qcases.append(f"QCA {coq_pty(tp, subs, mem)} {to_uv(v)} {to_ouv(observed)} {to_ouv(expected)}")
             qinfo.append((expr, vx, show(observed), show(expected), cls))
+            rcases.append(f"RCA {coq_rty(tp, subs, mem)} {to_uv(v)} true {to_ouv(observed)} {to_ouv(expected)}")
+            rinfo.append((expr, vx, show(observed), show(expected), cls))
+            ctx.hist("member_value", "own/" + cls)
     corr(ctx, "deep-encode-model-vs-impl", qcases, qinfo, "qcase", ["qcase_ok", "qcase_ok_model", "qcase_ok_ref", "qcase_thm"],
          stale_fun="qcase_stale", imports="UnionModel UnionDeep UnionDeepEnc", shard=150, needs=("theories/UnionDeepEnc.vo",))
+    # typing membership and the membership reference inside the model: rconf = conforms(), rmem = the Python reference
+    # (first conforming member), and the theorem's conclusion evaluated on every case of its domain
+    rcap = ctx.budget(2400, 4500)      # the leaf tables make these cases large: keep the thorough tier within its time
+    if len(rcases) > rcap:
+        keep = sorted(rng.sample(range(len(rcases)), rcap))
+        rcases, rinfo = [rcases[i] for i in keep], [rinfo[i] for i in keep]
+    corr(ctx, "member-value-model-vs-oracle", rcases, rinfo, "rcase", ["rcase_ok", "rcase_conf", "rcase_ref", "rcase_thm"],
+         imports="UnionModel UnionDeep UnionDeepEnc UnionMember", shard=150, needs=("theories/UnionMember.vo",))
 
 
 def ascii_only_str(subs) -> bool:
@@ -1909,6 +1971,355 @@ def k22_part(ctx: vlib.Ctx, mod):
          imports="UnionModel LitEmit K22Cases", gen_imports="From VerifGen Require Import K22.", needs=("theories/K22Cases.vo",))
 
 
+# ---------------------------------------------------------------------------
+# K43: the translated dispatch of (un)pack_special_typing_primitive vs what the real functions return
+# ---------------------------------------------------------------------------
+class DispatchRecorder:
+    """wraps the registered (un)pack_special_typing_primitive and Registry.get: for every call of the dispatch
+    records spec.type, could_be_none, resolved type params, the returned expression (or exception) and the
+    (type, expression) pairs of the registry calls made directly by it"""
+
+    def __init__(self):
+        import mashumaro.core.meta.types.common as _common
+        import mashumaro.core.meta.types.pack as _pack
+        import mashumaro.core.meta.types.unpack as _unpack
+        self.common, self.records, self.stack = _common, [], []
+        self.regs = {"unpack": _unpack.UnpackerRegistry, "pack": _pack.PackerRegistry}
+        self.fn = {"unpack": _unpack.unpack_special_typing_primitive, "pack": _pack.pack_special_typing_primitive}
+
+    def _wrap(self, side, fn):
+        def wrapped(spec):
+            rec = {"side": side, "type": spec.type, "cbn": spec.could_be_none, "expression": spec.expression, "nested": [],
+                   "annotations": list(getattr(spec, "annotations", []) or [])}
+            try:
+                rec["rtp"] = dict(spec.builder.get_field_resolved_type_params(spec.field_ctx.name))
+            except Exception as e:  # noqa: BLE001
+                rec["rtp"] = None
+            self.stack.append(("disp", rec))
+            try:
+                r = fn(spec)
+                rec["result"] = r
+                return r
+            except BaseException as e:  # noqa: BLE001
+                rec["exc"] = type(e).__name__
+                raise
+            finally:
+                self.stack.pop()
+                self.records.append(rec)
+        return wrapped
+
+    def __enter__(self):
+        self.saved = []
+        for side, reg in self.regs.items():
+            lst = reg._registry
+            i = next((k for k, f in enumerate(lst) if f is self.fn[side]), None)
+            if i is None:
+                raise RuntimeError(f"{side}_special_typing_primitive is not in the registry")
+            self.saved.append((lst, i, lst[i]))
+            lst[i] = self._wrap(side, lst[i])
+        cls = self.common.Registry
+        self.orig_get = orig = cls.get
+        stack = self.stack
+
+        def get(reg, spec):
+            parent = stack[-1] if stack else None
+            tp = spec.type
+            stack.append(("get", None))
+            try:
+                r = orig(reg, spec)
+            finally:
+                stack.pop()
+            if parent is not None and parent[0] == "disp":
+                parent[1]["nested"].append((tp, r))
+            return r
+        cls.get = get
+        return self
+
+    def __exit__(self, *a):
+        self.common.Registry.get = self.orig_get
+        for lst, i, f in self.saved:
+            lst[i] = f
+        return False
+
+
+def k43_dty(tp, table, depth=0):
+    """python type -> Coq dty term; distinct non-scalar leaves / type variables are numbered through `table`"""
+    if tp is None or tp is NoneType:
+        return "DScalar KNone"
+    if tp in (int, float, bool, str):
+        return f"DScalar {KIND[tp]}"
+    if tp is typing.Any:
+        return "DAny"
+
+    def num(x):
+        key = ("tv", id(x)) if isinstance(x, typing.TypeVar) or type(x).__name__ == "TypeVar" else ("t", repr(x))
+        return table.setdefault(key, len(table))
+    if typing.get_origin(tp) is typing.Union:
+        return "DUnion [" + "; ".join(k43_dty(a, table, depth + 1) for a in typing.get_args(tp)) + "]"
+    if hasattr(tp, "__constraints__") and hasattr(tp, "__bound__"):
+        if depth > 2:
+            return f"DPlain {num(tp)}"
+        opt = lambda x: "None" if x is None else f"(Some ({k43_dty(x, table, depth + 1)}))"
+        try:
+            has_default = tp.has_default()
+        except AttributeError:
+            has_default = getattr(tp, "__default__", None) is not None
+        cs = "; ".join(k43_dty(c, table, depth + 1) for c in tp.__constraints__)
+        return (f"DTypeVar {num(tp)} {'true' if tp is typing.AnyStr else 'false'} [{cs}] {opt(tp.__bound__)} "
+                f"{opt(tp.__default__) if has_default else 'None'}")
+    return f"DPlain {num(tp)}"
+
+
+K43_LEAVES = ["date", "int", "str", "float", "bool", "List[int]", "DC1", "Decimal", "Dict[str, int]", "UUID", "Color", "bytes", "Any",
+              "List[Optional[int]]", "Tuple[int, str]"]
+
+
+def k43_observe(rec):
+    """observation code (Coq xcode) of one recorded dispatch call, or None when the text does not tell"""
+    tp, side = rec["type"], rec["side"]
+    if "exc" in rec:
+        return "ORaise" if rec["exc"] == "UnserializableDataError" else None
+    r, nested = rec.get("result"), rec["nested"]
+    if r is None:
+        return "ONext"
+    if typing.get_origin(tp) is typing.Union:
+        cands = list(typing.get_args(tp))
+    else:
+        try:
+            has_default = tp.has_default()
+        except AttributeError:
+            has_default = getattr(tp, "__default__", None) is not None
+        cands = [getattr(tp, "__bound__", None)] + ([tp.__default__] if has_default else [])
+    if not nested:
+        return "OValue" if r == rec["expression"] else None
+    if len(nested) == 1:
+        a, ar = nested[0]
+        if a is None:
+            idx = "None"
+        else:
+            pos = next((i for i, c in enumerate(cands) if c is a), None)
+            if pos is None:
+                pos = next((i for i, c in enumerate(cands) if c == a), None)
+            if pos is None:
+                return None
+            idx = f"(Some {pos})"
+        if r == ar:
+            return f"OReg {idx} false"
+        if r == f"{ar} if {rec['expression']} is not None else None":
+            return f"OReg {idx} true"
+        return None
+    if f"__{side}_union_" in r:
+        return f"OUnion {len(nested)}"
+    if f"__{side}_type_var_" in r:
+        return f"OTypeVar {len(nested)}"
+    return None
+
+
+def k43_part(ctx: vlib.Ctx, mod):
+    """(T) validation of kernel K43: build real codecs / dataclasses over union, Optional and type variable positions
+    (codec top level: could_be_none; nullable dataclass fields: not could_be_none; container items; generic
+    dataclasses specialised with None), record every call of the real dispatch and compare its outcome with the
+    translated functions on the same abstracted ValueSpec."""
+    if not ctx.kernel_report.get("K43", {}).get("ok", False):
+        ctx.not_shown("kernel K43", str(ctx.kernel_report.get("K43", {}).get("error")))
+        return
+    rng, ns = ctx.rng, mod.__dict__
+    exprs = list(CURATED_UNIONS)
+    for _ in range(ctx.budget(40, 300)):
+        exprs.append(gen_union_expr(rng, encode=False)[0])
+    for _ in range(ctx.budget(60, 400)):
+        k = rng.choice([2, 2, 2, 3, 3, 4])
+        ms = rng.sample(K43_LEAVES, k - 1) + [rng.choice(["None", "None", rng.choice(K43_LEAVES)])]
+        ms = list(dict.fromkeys(ms))
+        if len(ms) < 2:
+            continue
+        rng.shuffle(ms)
+        exprs.append(f"Union[{', '.join(ms)}]")
+    snippets = []
+    # type variable positions (codec top level and unspecialised generic dataclass field)
+    tvdefs = []
+    for cs in TV_CONSTRAINT_SETS[:ctx.budget(6, 14)] + [[]] * ctx.budget(6, 14):
+        kw = []
+        if rng.random() < 0.5:
+            kw.append(f"default={rng.choice(TV_TARGETS)}")
+        if not cs and rng.random() < 0.7:
+            kw.append(f"bound={rng.choice(TV_TARGETS + ['Any'])}")
+        tvdefs.append(f"XTypeVar('KT', {', '.join(cs + kw)})")
+    tvdefs += ["XTypeVar('KT')", "XTypeVar('KT', bound=Any)", "typing.AnyStr"]
+    recs, nbuilt = [], 0
+
+    def build(src_or_fn):
+        nonlocal nbuilt
+        for _f in getattr(typing, "_cleanups", []):
+            _f()
+        with DispatchRecorder() as dr:
+            try:
+                src_or_fn()
+            except Exception:  # noqa: BLE001  (AnyStr, unserializable combinations: the records tell)
+                pass
+        nbuilt += 1
+        recs.extend(dr.records)
+
+    ns.setdefault("typing", typing)
+    for e in exprs:
+        try:
+            tp = eval(e, ns)
+        except Exception:  # noqa: BLE001
+            continue
+        pure = typing.Any not in typing.get_args(tp) if typing.get_origin(tp) is typing.Union else True
+        build(lambda: ns["BasicDecoder"](tp))
+        if pure:
+            build(lambda: ns["BasicEncoder"](tp))
+        if rng.random() < ctx.budget(35, 60) / 100:
+            n = _MOD_COUNTER[0] = _MOD_COUNTER[0] + 1
+            src = (f"@dataclass\nclass K43H{n}(DataClassDictMixin):\n    a: {e}\n    b: List[{e}]\n    c: Dict[str, {e}] = field(default_factory=dict)\n"
+                   f"    d: Optional[{e}] = None\n")
+            build(lambda: xexec(src, ns))
+    for tvd in tvdefs:
+        n = _MOD_COUNTER[0] = _MOD_COUNTER[0] + 1
+        try:
+            xexec(f"K43T{n} = {tvd}\n", ns)
+        except Exception:  # noqa: BLE001
+            continue
+        tv = ns[f"K43T{n}"]
+        build(lambda: ns["BasicDecoder"](tv))
+        build(lambda: ns["BasicEncoder"](tv))
+        if tv is not typing.AnyStr:
+            other = rng.choice(K43_LEAVES[:8])
+            src = (f"@dataclass\nclass K43G{n}(Generic[K43T{n}], DataClassDictMixin):\n    a: K43T{n}\n    b: Optional[K43T{n}]\n"
+                   f"    c: Union[K43T{n}, {other}]\n    d: List[Union[K43T{n}, {other}, None]]\n    e: Union[K43T{n}, None, {other}] = None\n"
+                   f"@dataclass\nclass K43S{n}(K43G{n}[None]):\n    pass\n"
+                   f"@dataclass\nclass K43R{n}(K43G{n}[{rng.choice(K43_LEAVES[:8])}]):\n    pass\n")
+            build(lambda: xexec(src, ns))
+    cases, info, seen, untold = [], [], set(), 0
+    for rec in recs:
+        tp = rec["type"]
+        is_u = typing.get_origin(tp) is typing.Union
+        is_tv = hasattr(tp, "__constraints__") and hasattr(tp, "__bound__")
+        if not (is_u or is_tv) or rec["rtp"] is None:
+            continue
+        if any(type(a).__name__ == "Discriminator" for a in rec["annotations"]):
+            continue
+        obs = k43_observe(rec)
+        if obs is None:
+            untold += 1
+            continue
+        table: dict = {}
+        t = k43_dty(tp, table)
+        if is_u:
+            cands = [k43_dty(a, table, 1) for a in typing.get_args(tp)]
+        else:
+            try:
+                hd = tp.has_default()
+            except AttributeError:
+                hd = getattr(tp, "__default__", None) is not None
+            cands = [k43_dty(tp.__bound__, table, 1)] + ([k43_dty(tp.__default__, table, 1)] if hd else [])
+        if any(c.startswith("DUnion") for c in cands):
+            untold += 1
+            continue
+        rtp = []
+        for k, v in rec["rtp"].items():
+            if type(k).__name__ == "TypeVar":
+                kk = table.setdefault(("tv", id(k)), len(table))
+                rtp.append(f"({kk}, {k43_dty(v, table, 1)})")
+        case = (f"(K43C ({t}) [{'; '.join(rtp)}] {'true' if rec['cbn'] else 'false'} [{'; '.join(cands)}] "
+                f"{'true' if rec['side'] == 'unpack' else 'false'} ({obs}))%nat")
+        if case in seen:
+            continue
+        seen.add(case)
+        cases.append(case)
+        info.append((rec["side"], repr(tp)[:120], f"cbn={rec['cbn']}", f"rtp={ {getattr(k, '__name__', k): v for k, v in rec['rtp'].items()} }"[:80], obs))
+        ctx.count(("k43", rec["side"], obs.split()[0], rec["cbn"], "rtp" if rtp else "", len(cands)))
+        ctx.hist("k43_validation", f"{rec['side']}:{obs.split()[0]}:{'cbn' if rec['cbn'] else 'field-tested'}", 1)
+    ctx.hist("k43_validation", "compared", len(cases))
+    ctx.hist("k43_validation", "outcome-not-told-by-text", untold)
+    ctx.hist("k43_validation", "builds", nbuilt)
+    if len(cases) < 40:
+        ctx.not_shown("kernel K43 validation", f"only {len(cases)} dispatch calls observed")
+    corr(ctx, "K43-translation-vs-real-dispatch", cases, info, "k43case", ["k43case_ok"],
+         imports="UnionModel UnionDispatch K43Cases", gen_imports="From VerifGen Require Import K43.", needs=("theories/K43Cases.vo",))
+
+
+# ---------------------------------------------------------------------------
+# K43a: the translated creators of the basic scalar types vs the expression the real registries return
+# ---------------------------------------------------------------------------
+class GetRecorder:
+    """records the outermost Registry.get call (type, returned expression) made while something is built"""
+
+    def __init__(self):
+        import mashumaro.core.meta.types.common as _common
+        self.common, self.calls, self.depth = _common, [], 0
+
+    def __enter__(self):
+        cls = self.common.Registry
+        self.orig = orig = cls.get
+        me = self
+
+        def get(reg, spec):
+            tp = spec.type
+            me.depth += 1
+            try:
+                r = orig(reg, spec)
+            finally:
+                me.depth -= 1
+            if me.depth == 0:
+                me.calls.append((tp, r))
+            return r
+        cls.get = get
+        return self
+
+    def __exit__(self, *a):
+        self.common.Registry.get = self.orig
+        return False
+
+
+K43A_TYPES = [("int", "OInt"), ("float", "OFloat"), ("bool", "OBool"), ("str", "(OStr false)"), ("NoneType", "ONoneType"), ("None", "ONonePy"),
+              ("Any", "OAny"), ("SStr", "(OStr true)"), ("date", "OOther"), ("Decimal", "OOther"), ("List[int]", "OOther"), ("DC1", "OOther"),
+              ("UUID", "OOther"), ("Dict[str, int]", "OOther"), ("Color", "OOther")]
+
+
+def k43a_part(ctx: vlib.Ctx, mod):
+    """(T) validation of kernel K43a: the expression the real registries return for a type at the top of a codec
+    (TypeMatchEligibleExpression with which coercion / "value" / something else) against the translated creators."""
+    if not ctx.kernel_report.get("K43a", {}).get("ok", False):
+        ctx.not_shown("kernel K43a", str(ctx.kernel_report.get("K43a", {}).get("error")))
+        return
+    from mashumaro.core.meta.types.common import TypeMatchEligibleExpression as TME
+    ns = mod.__dict__
+    cases, info = [], []
+    for expr, oty in K43A_TYPES:
+        tp = eval(expr, ns)
+        obs = []
+        for side, codec in (("unpack", "BasicDecoder"), ("pack", "BasicEncoder")):
+            with GetRecorder() as gr:
+                try:
+                    ns[codec](tp)
+                except Exception as e:  # noqa: BLE001
+                    ctx.notes.append(f"K43a: {codec}({expr}) not built: {type(e).__name__}"[:160])
+            if not gr.calls:
+                obs = None
+                break
+            r = gr.calls[-1][1]
+            if isinstance(r, TME):
+                k = FB_TEXT.get(str(r))
+                obs.append(f"(Some (STme {k}))" if k else "(Some (STme KNone))" if str(r) == "None" else "None")
+                if not k:
+                    ctx.not_shown("kernel K43a validation", f"TypeMatchEligibleExpression with unknown text {r!r} for {expr}")
+            elif r == "value":
+                obs.append("(Some SValue)")
+            else:
+                obs.append("None")
+        if obs is None:
+            continue
+        cases.append(f"({oty}, ({obs[0]}, {obs[1]}))")
+        info.append((expr, oty, obs[0], obs[1]))
+        ctx.count(("k43a", expr, obs[0], obs[1]))
+    if len(cases) < 10:
+        ctx.not_shown("kernel K43a validation", f"only {len(cases)} types observed")
+    corr(ctx, "K43a-translation-vs-real-registry", cases, info, "oty * (option sexpr * option sexpr)", ["k43acase_ok"],
+         imports="UnionModel ScalarCreators K43aCases", gen_imports="From VerifGen Require Import K43a.", needs=("theories/K43aCases.vo",))
+
+
 THEOREMS = [
     "C11_union_decode_partial", "C11_union_deviation_char", "C11_union_shadow_result", "C11_union_none_refuted",
     "C11_union_shadow_refuted", "C11_no_cross_coercion", "C11_scalars_first_no_shadow", "C11_union_result_from_member",
@@ -1916,6 +2327,12 @@ THEOREMS = [
     "C11_union_encode_partial", "C11_union_encode_refuted", "C11_literal_full", "C11_literal_encode_full",
     "C11_literal_returns_listed", "C11_literal_accepts_listed", "C11_literal_emit_correct", "C11_literal_emitted_full",
     "C11_literal_pack_emit_correct", "C11_literal_text_denotes",
+    "C11_is_optional_spec", "C11_not_none_arg_spec", "C11_union_dispatch_correct", "C11_typevar_dispatch_correct",
+    "C11_typevar_dispatch_model", "C11_optional_position_full", "C11_union_position_partial", "C11_union_position_refuted",
+    "C11_dispatch_symmetric", "C11_optional_encode", "C11_field_none_test_once",
+    "C11_member_value_partial", "C11_member_value_refuted",
+    "C11_scalar_members_tme", "C11_scalar_members_identity_packer", "C11_tme_only_scalars", "C11_scalar_creators_exclusive",
+    "C11_scalar_type_is_scalar_member",
 ]
 
 
@@ -1927,13 +2344,24 @@ def run(ctx: vlib.Ctx):
         "dataclass field, List element; inputs: 62 basic-form values of every scalar class, lists, dicts and garbage. "
         "distinct = (member mix in order, path, input class, verdict class, outcome). Literal: 1-4 listed values of "
         "int/bool/str/None/enum/bytes x 27 inputs.")
-    ctx.theorems("props/C11_union.vo", THEOREMS, kernels=["K19", "K21", "K22"])
+    # the cone of the props file is built first with a generous time limit (a fresh copy on a loaded machine: the
+    # default limit of the props build must only cover the props file itself); failures are reported by ctx.theorems
+    vlib.coq_make(["theories/K19Proofs.vo", "theories/K21Proofs.vo", "theories/K22Proofs.vo", "theories/K43Proofs.vo",
+                   "theories/K43aProofs.vo", "theories/UnionMember.vo", "theories/UnionDeepProofs.vo", "theories/UnionDeepEncProofs.vo",
+                   "theories/PyLitProofs.vo", "theories/PyStrLit.vo", "theories/K19Cases.vo", "theories/K21Cases.vo", "theories/K22Cases.vo",
+                   "theories/K43Cases.vo", "theories/K43aCases.vo", "theories/UnionCases.vo"], timeout=2700, jobs=6)
+    ctx.theorems("props/C11_union.vo", THEOREMS, kernels=["K19", "K21", "K22", "K43", "K43a"])
     ctx.trusted += [
         "UnionModel.v is hand-written from UnionUnpackerBuilder._add_body / pack_union / LiteralUnpackerBuilder / expr_or_maybe_none; "
         "tied to /repo only behaviourally (correspondence on every run), parametric in the member (un)packers whose behaviour is "
         "observed on the real code per case (BasicDecoder(member).decode / BasicEncoder(member).encode / single-field holder)",
         "Python `==` on bool/int/float/str/None (UnionModel.py_eq) and `type(value) is T` (kind_of) are modelled, not verified",
-        "harness: conforms() (which member a value belongs to), to_uv() (class name + repr as identity of a value)",
+        "harness: conforms() (which member a value belongs to; since round 6 only for LEAF types -- List[int], date, ... --, membership in "
+        "unions / Optional / containers around unions is UnionMember.rconf, compared with conforms() on every case), "
+        "to_uv() (class name + repr as identity of a value)",
+        "K43: types / ValueSpec / returned expression abstracted to UnionDispatch.v (dty, dspec, dexpr); resolved_type_params keyed by "
+        "type variables; has_default() is abstracted; of the registry creators that run before (un)pack_special_typing_primitive only the "
+        "names and their order are pinned (C11_creators_before); the field-level None test of a nullable dataclass field (field_dec) is hand-modelled",
     ]
     ctx.assumptions += [
         "coherent / pcoherent: members rendered to the same (un)packer expression behave identically on the input (same expression, deterministic callee)",
@@ -1942,8 +2370,9 @@ def run(ctx: vlib.Ctx):
     ]
     if not ctx.quick():
         # second opinion on the compiled proofs (independent checker)
-        rc, log, secs = vlib.run(["timeout", "900", "coqchk", "-silent", "-o", "-Q", "theories", "Verif", "-Q", "gen", "VerifGen", "-Q", "props", "VerifProps",
-                                  "VerifProps.C11_union"], cwd=vlib.COQ, timeout=930)
+        # generous: on a loaded machine coqchk gets a few percent of a core
+        rc, log, secs = vlib.run(["timeout", "2700", "coqchk", "-silent", "-o", "-Q", "theories", "Verif", "-Q", "gen", "VerifGen", "-Q", "props", "VerifProps",
+                                  "VerifProps.C11_union"], cwd=vlib.COQ, timeout=2760)
         ok = rc == 0 and "Axioms: <none>" in re.sub(r"\s+", " ", log)
         ctx.obligation("coqchk VerifProps.C11_union (no axioms)", ok, log[-600:])
         if not ok:
@@ -1960,6 +2389,8 @@ def run(ctx: vlib.Ctx):
     k19_part(ctx, mod)
     k21_part(ctx, mod)
     k22_part(ctx, mod)
+    k43_part(ctx, mod)
+    k43a_part(ctx, mod)
 
 
 # ---------------------------------------------------------------------------
